@@ -1,0 +1,5 @@
+//go:build !verif
+
+package alert
+
+func verifHook(string, ...string) {}
